@@ -1880,6 +1880,15 @@ class DocutilsRenderer(RendererProtocol):
             )
             return [error_msg]
 
+        # the nodes a directive returns belong to the line of the directive;
+        # one without a line would otherwise take the document's current line when
+        # it is added to the tree (the line of the last directive nested in the content),
+        # or none at all (when it is added to a node that is not in the tree yet)
+        self.document.current_line = position
+        for node in result:
+            if isinstance(node, nodes.Element) and node.line is None:
+                node.line = position
+
         assert isinstance(
             result, list
         ), f'Directive "{name}" must return a list of nodes.'
